@@ -301,7 +301,8 @@ def gen_cases(rng, n):
     for t in BOUNDARY_T + OUTSIDE_T:
         cases.append("date.rt %d" % t)
         cases.append("date.gmtime %d" % t)
-    while len(cases) < n + len(BOUNDARY_T) * 2 + len(OUTSIDE_T) * 2:
+    target = len(cases) + n
+    while len(cases) < target:
         k = rng.random()
         if k < 0.30:
             cases.append("date.rt %d" % rand_time(rng))
